@@ -219,7 +219,7 @@ ChangeConst ==
 (* in the middle of a campaign the user changes the farmer's constants (runner.constants = ...); the sown batches still hold
    the old ones until the crop is sown again, and results grown before that stay what they are until their batch is grown again *)
 ChangeConstMid ==
-    /\ dir = "present" /\ Step /\ cfg.farmer # "none" /\ kver = 0
+    /\ dir = "present" /\ Step /\ kver = 0     \* (a crop without farmer: the constants= handed to the next sow call differ)
     /\ kver' = 1
     /\ outcome' = "ok"
     /\ UNCHANGED <<cfg, perm1, dir, B, bsz, rem, sown, batch, infoShuf, res, failing, hfn, dfn, sownK, cause, store, extra, value>>
